@@ -35,11 +35,14 @@ QUICK_OPTS = [ALL_OPTS[i] for i in (0, 9, 18, 27, 36, 5, 14, 23, 28, 39)]
 WORDS = ['a', 'b', 'ab', 'xyz', 'A', '1', 'q.', '(x)']
 SEPS = [' ', ' ', '  ', '\n', ' \n ', '\n  ']
 BLANKS = [' ', '  ', '\t']
-SYMS_CW = ['alpha', 'beta', 'ldots', 'oe', 'ss', 'l', 'infty', 'Omega', 'times', 'to']
+SYMS_CW = ['alpha', 'beta', 'ldots', 'oe', 'ss', 'l', 'infty', 'Omega', 'times', 'to',
+           'gamma', 'pi', 'o', 'ae', 'leq', 'textendash']
 SYMS_CS = ['&', '$', '{', '}', '#', '_', '%']
-FONTS = ['textbf', 'emph', 'textit', 'text', 'mathrm', 'textsc']
-ACC = ["'", '`', '"', '^', '~', 'c', 'v']
-SPECIALS = ['~', '--', '---', '``', "''", '&']
+FONTS = ['textbf', 'emph', 'textit', 'text', 'mathrm', 'textsc', 'textrm', 'textsl']
+ACC = ["'", '`', '"', '^', '~', 'c', 'v', 'H', 'k', '=', '.', 'd', 'r', 'u', 'b']
+ACC_MATH = ['hat', 'bar', 'vec', 'tilde', 'dot', 'ddot']
+SPECIALS = ['~', '--', '---', '``', "''", '&', '!`', '?`']
+EQ_ENVS = list(M.DISPLAY_ENVS)
 
 
 @st.composite
@@ -153,14 +156,28 @@ def item_list(draw, depth, in_math=False, allow_par=True, in_list_env=False, max
                 slot = ['token', [['space', ' ']], tok]
             items.append(['macro', name, '', [slot]])
         elif kind == 'accent':
-            name = draw(st.sampled_from(ACC))
-            letter = draw(st.sampled_from(list('aeoucnz')))
-            if draw(st.booleans()):
+            name = draw(st.sampled_from(ACC + (ACC_MATH if in_math else [])))
+            letter = draw(st.sampled_from(list('aeoucnzAEOUNyg')))
+            dotless = draw(st.integers(0, 5)) == 0
+            which = draw(st.integers(0, 2))
+            if dotless:
+                tok = ['macro', draw(st.sampled_from(['i', 'j'])), '', []]
+                slot = ['braced', [], [tok]]
+            elif which:
                 slot = ['braced', [], [['text', letter]]]
             else:
                 slot = ['token', [['space', ' ']] if docgrammar.is_control_word(name) else [],
                         ['text', letter]]
             items.append(['macro', name, '', [slot]])
+        elif kind == 'frac' and draw(st.integers(0, 3)) == 0:
+            # single-token arguments: \frac12, \frac ab, \frac1{..}
+            t1 = draw(st.sampled_from(['1', 'a', '7']))
+            first = ['token', [] if t1.isdigit() else [['space', ' ']], ['text', t1]]
+            if draw(st.booleans()):
+                second = ['token', [], ['text', draw(st.sampled_from(['2', 'b']))]]
+            else:
+                second = ['braced', [], draw(item_list(depth - 1, in_math, False, False, 2))]
+            items.append(['macro', 'frac', '', [first, second]])
         elif kind == 'frac':
             items.append(['macro', 'frac', '',
                           [['braced', [], draw(item_list(depth - 1, in_math, False, False, 2))],
@@ -193,7 +210,8 @@ def item_list(draw, depth, in_math=False, allow_par=True, in_list_env=False, max
                 body = [b for b in body if b[0] != 'par']
             items.append(['math', d[0], d[1], body])
         elif kind == 'equation':
-            items.append(['env', 'equation', [], draw(item_list(depth - 1, True, False, False, 4))])
+            items.append(['env', draw(st.sampled_from(EQ_ENVS)), [],
+                          draw(item_list(depth - 1, True, False, False, 4))])
     return finalize(items, in_math)
 
 
@@ -320,7 +338,8 @@ def check_metamorphic(a_doc, b_doc, opts, res):
             rel.append(('group', conv('{' + A + '}'), ta))
             rel.append(('textbf', conv('\\textbf{' + A + '}'), ta))
     except BaseException as e:
-        res.label('meta:block-not-convertible')
+        # (every block is a well-formed document: nothing here may raise)
+        res.fail(exc_key(e), exc_detail(e) + ' on blocks %r / %r' % (A, B), case)
         return
     res.label('meta')
     for name, got, want in rel:
